@@ -34,6 +34,7 @@ type hist struct {
 	ops  []progs.Op
 	omit bool
 	conf bool // kinds may clash between programs
+	slow string // slow.go: the program that carries the inert rules ("" = none)
 }
 
 func genHistory(r *vlib.Rand, conflicts bool) hist {
@@ -172,13 +173,21 @@ func check(h hist, full *progs.Case, count func(string)) []finding {
 		}
 	}
 	for p := range seen {
-		alone := h.w.Run(restrict(h.ops, p), h.omit, false)
+		var alone *progs.Case
+		if p != h.slow {
+			// (the slow program alone would be busy for as long again: it is
+			// judged by checkSeen instead)
+			alone = h.run(restrict(h.ops, p))
+		}
 		diverged := false
 		if !dup {
 			want := expectedSeries(full.Snaps[len(full.Snaps)-1], p)
 			if !reflect.DeepEqual(full.Scrape[p], want) && !(len(want) == 0 && len(full.Scrape[p]) == 0) {
 				out = append(out, finding{"export-differs-from-store", fmt.Sprintf("the Prometheus samples with prog=%q are %q, the store holds %q", p, full.Scrape[p], want), alone})
 			}
+		}
+		if alone == nil {
+			continue
 		}
 		for i := range full.Ops {
 			fo, ao := full.Ops[i], alone.Ops[i]
@@ -197,8 +206,13 @@ func check(h hist, full *progs.Case, count func(string)) []finding {
 			fv, av := project(full.Snaps[i], p), project(alone.Snaps[i], p)
 			if !reflect.DeepEqual(fv, av) {
 				cl := "program-state-depends-on-other-programs"
+				what := fmt.Sprintf("step %d (%s %s%s): the metrics of %s differ from running it alone: %+v vs %+v", i+1, fo.K, fo.Prog, fo.Line, p, fv, av)
+				if fo.K == "burst" {
+					cl = "slow-neighbour-loses-lines"
+					what = fmt.Sprintf("step %d: a line of %d bytes that keeps %s busy and then %q are sent back to back; afterwards the metrics of %s differ from running it alone over the same lines: %+v vs %+v", i+1, fo.Fill, h.slow, fo.Lines, p, fv, av)
+				}
 				diverged = true
-				out = append(out, finding{cl, fmt.Sprintf("step %d (%s %s%s): the metrics of %s differ from running it alone: %+v vs %+v", i+1, fo.K, fo.Prog, fo.Line, p, fv, av), alone})
+				out = append(out, finding{cl, what, alone})
 				break
 			}
 		}
@@ -353,16 +367,21 @@ func main() {
 		replay(a.Replay)
 		return
 	}
-	out := vlib.NewOut(a, progs.Header("Run_C06"), "lcase", 60)
+	out := vlib.NewOut(a, progs.Header("Run_C06"), "c06case", 60)
 	rng := vlib.NewRand(a.Seed)
 	n := 300
 	if a.Thorough() {
 		freshBudget = 250
 		n = 2500
 	}
+	var slows []*slowHist
 	for i := -1; i < n; i++ {
 		conflicts := i%3 == 2
 		var h hist
+		if i == 0 {
+			// the histories with a slow program run in the background from here on
+			slows = startSlow(rng.Fork(), a.Thorough())
+		}
 		if i < 0 {
 			h = corpusConv() // first: nothing has been compiled in this process yet
 		} else {
@@ -373,7 +392,7 @@ func main() {
 			c.Note = "kinds may clash"
 		}
 		id := out.NextID()
-		out.Add(h.w.CoqLCase(id, c), c, nontrivial(c))
+		out.Add("CSeq "+h.w.CoqLCase(id, c), c, nontrivial(c))
 		np := map[string]bool{}
 		for _, op := range c.Ops {
 			if op.K == "load" {
@@ -397,7 +416,24 @@ func main() {
 			out.Violate(f.class, f.what, map[string]any{"kind": "history", "case": c})
 		}
 	}
-	out.Flush("load/reload/unload/line/GC histories (7-13 steps) over 1-4 programs drawing metric names from {x,y,z} (every third history lets kinds clash between programs); each program is re-run alone and compared step by step; non-trivial when two programs hold data under the same metric name at some step", false)
+	srng := rng.Fork()
+	for k, s := range slows {
+		c, busy := s.finish()
+		c.Note = fmt.Sprintf("slow neighbour: %s is meant to be busy for %.1f s with the first line of the burst", slowProg, s.secs)
+		out.Extra[fmt.Sprintf("slow_history_%d_busy_s", k)] = busy
+		id := out.NextID()
+		out.Add(coqSlowCase(s.h.w, srng, id, c), c, nontrivial(c))
+		out.Count("slow-neighbour-history")
+		seen := map[string]bool{}
+		for _, f := range append(check(s.h, c, out.Count), checkSeen(c)...) {
+			if seen[f.class] {
+				continue
+			}
+			seen[f.class] = true
+			out.Violate(f.class, f.what, map[string]any{"kind": "history", "case": c})
+		}
+	}
+	out.Flush("load/reload/unload/line/GC histories (7-13 steps) over 1-4 programs drawing metric names from {x,y,z} (every third history lets kinds clash between programs); each program is re-run alone and compared step by step; plus 1 (thorough: 3) history in which one program is kept busy for 6.5 (12, 32) s by a long line while further lines are sent back to back to it and 1-3 fast programs; non-trivial when two programs hold data under the same metric name at some step", false)
 }
 
 func replay(path string) {
@@ -413,22 +449,30 @@ func replay(path string) {
 	for _, s := range c.Sources {
 		w.Srcs.ID(vlib.UnQ(s))
 	}
-	h := hist{w: w, omit: c.Omit}
+	h := hist{w: w, omit: c.Omit, slow: slowOf(&c, w.Srcs.Texts)}
 	for _, o := range c.Ops {
 		o.Err = ""
 		h.ops = append(h.ops, o)
 	}
 	fmt.Printf("replay %s (%d steps)\n", path, len(h.ops))
 	for i, o := range h.ops {
+		if o.K == "burst" {
+			fmt.Printf("  step %d: burst: a line of %d bytes 'a', then %q, back to back\n", i+1, o.Fill, o.Lines)
+			continue
+		}
 		fmt.Printf("  step %d: %s %s %q\n", i+1, o.K, o.Prog, o.Line)
 	}
 	for i, s := range w.Srcs.Texts {
 		fmt.Printf("--- source %d\n%s", i, s)
 	}
-	full := w.Run(h.ops, h.omit, false)
+	full := h.run(h.ops)
 	fail := false
 	progs.WantScrape = true
-	for _, f := range append(check(h, full, func(string) {}), checkFresh(h, full, func(string) {})...) {
+	fs := append(check(h, full, func(string) {}), checkFresh(h, full, func(string) {})...)
+	if hasBurst(h.ops) {
+		fs = append(fs, checkSeen(full)...)
+	}
+	for _, f := range fs {
 		fmt.Printf("%s: %s\n", f.class, f.what)
 		if f.class == v.Class {
 			fail = true
